@@ -733,3 +733,33 @@ theorem interp_sound (p : Program) : ∀ {f : Nat} {s : List El} {out : List Gly
               exact Interp.lig x y tail z post o hx hl (ih hi)
 
 end C05
+
+
+namespace C05
+
+/-! ## The table does not depend on the right boundary character -/
+
+theorem rule_withRb (p : Program) (x : Option Nat) (l : Option Nat) (r : Nat) :
+    rule (withRb p x) l r = rule p l r := rfl
+
+theorem pairResult_withRb (p : Program) (x : Option Nat) :
+    ∀ n l r, pairResult n (withRb p x) l r = pairResult n p l r := by
+  intro n
+  induction n with
+  | zero => intro l r; rfl
+  | succ n ih =>
+    intro l r
+    rw [pairResult, pairResult, rule_withRb]
+    simp only [ih]
+
+theorem bound_withRb (p : Program) (x : Option Nat) : bound (withRb p x) = bound p := rfl
+
+theorem table_withRb (p : Program) (x : Option Nat) : table (withRb p x) = table p := by
+  funext l r
+  simp only [table, bound_withRb, pairResult_withRb]
+
+theorem acyclicB_withRb (p : Program) (x : Option Nat) : acyclicB (withRb p x) = acyclicB p := by
+  have hc : candPairs (withRb p x) = candPairs p := rfl
+  simp only [acyclicB, hc, loopsM, bound_withRb, pairResult_withRb]
+
+end C05
